@@ -18,13 +18,16 @@ def build_registry(world=None) -> Registry:
     c_dispatch.register(reg)
     c_concurrent.register(reg)
     c_concurrent.register2(reg)
+    c_concurrent.register3(reg)
     c_component.register(reg)
     c_component_ctx.register(reg)
     c_component_ctx.register2(reg)
     c_component_ctx.register3(reg)
     c_component_ctx.register4(reg)
     c_runner.register(reg)
+    c_runner.register_run(reg)
     c_inject.register(reg)
+    c_inject.register2(reg)
     c_cli.register(reg)
     reg._signal_decls = reg._signal_decl_finder(world)
     reg.world = world
